@@ -1,13 +1,20 @@
 import IceModel.TcpMux
 import IceSpec.C15
+import IceSpec.C15View
 import Driver.Util
 /-!
 Line-protocol component `tcpmux` (property C15): the model's canonical output for every operation of
 the harness (`harness/inpkg/zz_verif_tcpmux_test.go`), and the spec monitor of C15 evaluated on the
 implementation's own outputs.
+
+The output line of the model is the printed form (`digest`) of the typed observation
+`IceSpec.C15.View.obsOf` about which `C15_model_passes_monitor` is proved; every printed line is read
+back with the monitor's own parser and compared with the typed line (`VIEW-DISAGREES` otherwise), so
+the printing/parsing layer between theorem and monitor is checked on every generated line.
 -/
 namespace Driver.TcpMux
 open IceModel.TcpMux Driver
+open IceSpec.C15.View (idxWhere newReplies ledgerList obsOf lineOf mopOf oresOf endOps allDown endLine)
 
 def fmtAddr (a : Addr) : String := s!"{a.ip}:{a.port}"
 
@@ -25,24 +32,13 @@ def fmtRes : IceModel.TcpMux.Res → String
     | some e => s!"{fmtErr e} {fmtAddr p.src}"
   | .empty => "empty"
 
-def idxWhere {α : Type} (l : List α) (f : α → Bool) : List Nat :=
-  (List.range l.length).filter (fun i => match l[i]? with | some a => f a | none => false)
-
-/-- replies that appeared in this operation: per client, the suffix of `out` beyond the old length -/
-def newReplies (old new : List Tcp) : List String :=
-  (List.range new.length).flatMap (fun k =>
-    match new[k]? with
-    | some t =>
-      let seen := match old[k]? with | some o => o.out.length | none => 0
-      (t.out.drop seen).map (fun (pid, len) => s!"{k}:{if len < 4 then "-" else toString pid}")
-    | none => [])
-
+/-- the printed form of the observation `obsOf old s _` with result text `res` -/
 def digest (old : List Tcp) (s : State) (res : String) : String :=
   let closed := ",".intercalate ((idxWhere s.tcps (·.isClosed)).map toString)
-  let outs := ",".intercalate (newReplies old s.tcps)
-  let g := ledger s
+  let outs := ",".intercalate ((newReplies old s.tcps).map (fun (k, id) => s!"{k}:{id}"))
+  let g := "/".intercalate ((ledgerList s).map toString)
   let b (x : Bool) : String := if x then "1" else "0"
-  s!"{res} ; c={closed} ; o={outs} ; g={g.acceptor}/{g.handlers}/{g.watchers}/{g.readers}/{g.writers}/0 ; L={b (!s.listenerOpen)} ; ret={b (closeReturned s)}"
+  s!"{res} ; c={closed} ; o={outs} ; g={g} ; L={b (!s.listenerOpen)} ; ret={b (closeReturned s)}"
 
 def parseKind (s : String) : Option FKind :=
   match s.toList with
@@ -95,13 +91,6 @@ def parseOp (s : State) (toks : List String) : Option Op :=
   | ["closemux"] => some .closeMux
   | _ => none
 
-/-- the teardown the harness performs for `end` -/
-def endOps (s : State) : List Op :=
-  (List.range s.handles.length).map .closeHandle ++ [.closeMux, .advance (effTimeout s.cfg.t1 + effTimeout s.cfg.t2 + 1)]
-
-def allDown (s : State) : Bool :=
-  closeReturned s && s.tcps.all (·.isClosed) && decide (ledger s = ⟨0, 0, 0, 0, 0⟩)
-
 /-! S2: `MultiTCPMuxDefault.GetAllConns` — the first failing mux aborts the loop, nothing is released -/
 def multiGetAll : List State → Key → List State × Bool
   | [], _ => ([], true)
@@ -144,10 +133,17 @@ def init : State := {}
 
 def step (st : State) (toks : List String) (impl : String) : State × Res :=
   let (mon', verdict) := monStep st toks impl
-  let fin (m : Option IceModel.TcpMux.State) (out : String) : State × Driver.Res :=
+  -- `view` = the typed operation and line of `IceSpec.C15.View` that `out` is the printed form of
+  let fin (m : Option IceModel.TcpMux.State) (out : String)
+      (view : Option (IceSpec.C15.MOp × IceSpec.C15.Line) := none) : State × Driver.Res :=
     let (monM', vM) := IceSpec.C15.observe st.monM toks out
     let out := match vM with
       | some why => s!"MODEL-REJECTED-BY-MONITOR({why}) {out}"
+      | none => out
+    let out := match view with
+      | some (mop, line) =>
+        if IceSpec.C15.parseToks toks = mop ∧ IceSpec.C15.parseLine out = line then out
+        else s!"VIEW-DISAGREES {out}"
       | none => out
     ({ model := m, mon := mon', monM := monM' }, { model := out, monitor := verdict, prop := "C15" })
   match toks with
@@ -155,7 +151,7 @@ def step (st : State) (toks : List String) (impl : String) : State × Res :=
     match cap.toNat?, wbuf.toNat?, t1.toNat?, t2.toNat? with
     | some cap, some wbuf, some t1, some t2 =>
       let s := IceModel.TcpMux.init ⟨cap, wbuf > 0, t1, t2⟩
-      fin (some s) (digest [] s "ok")
+      fin (some s) (digest [] s "ok") (some (.start t1 t2, .obs (obsOf [] s .ok)))
     | _, _, _, _ => fin none "bad-op"
   | ["multi", n, bad] =>
     match n.toNat?, bad.toInt? with
@@ -167,7 +163,7 @@ def step (st : State) (toks : List String) (impl : String) : State × Res :=
     | none => fin none "end ok (no mux)"
     | some s =>
       let s' := run s (endOps s)
-      fin none (digest s.tcps s' (if allDown s' then "end ok" else "end LEAK"))
+      fin none (digest s.tcps s' (if allDown s' then "end ok" else "end LEAK")) (some (.finish, endLine s))
   | _ =>
     match st.model with
     | none => fin none "no-session"
@@ -177,11 +173,11 @@ def step (st : State) (toks : List String) (impl : String) : State × Res :=
       | some op =>
         let (s', r) := IceModel.TcpMux.step s op
         match r with
-        | .bad => fin (some s) "bad-op"
+        | .bad => fin (some s) "bad-op" (some (mopOf op, lineOf s op))
         | _ =>
           let rs := match op, r with
             | .partialFrame _, .ok => "sent"
             | _, _ => fmtRes r
-          fin (some s') (digest s.tcps s' rs)
+          fin (some s') (digest s.tcps s' rs) (some (mopOf op, lineOf s op))
 
 end Driver.TcpMux
